@@ -294,7 +294,21 @@ def run(ctx):
                     param = H.pat_binds(st_["pat"])[0]
             return shape(n["expr"], param)
         if H.kind(n) == "If":
-            return shape(n["else"], param) if n.get("else") else None
+            # `if value == 0.0 { INFINITY } else { c / value }`: the branch taken for every non-zero value is the conversion
+            if not n.get("else"):
+                return None
+            c_ = H.strip(n["cond"])
+            main = n["else"]
+            if H.kind(c_) == "Binary" and c_["op"] == "Ne":
+                main = n["then"]
+            elif H.kind(c_) == "Binary" and c_["op"] in ("Gt", "Ge", "Lt", "Le") and any(H.lit(x_) is not None for x_ in (c_["l"], c_["r"])):
+                return ("const", "one-sided test %s against a constant: values on the other side of it do not reach the conversion" % c_["op"], "value")
+            elif not (H.kind(c_) == "Binary" and c_["op"] == "Eq"):
+                return None
+            m_ = H.final_expr(main)
+            if H.kind(m_) in ("Path", "Lit"):
+                return ("const", H.last(H.path_def(m_) or "") or str((H.lit(m_) or {}).get("v")), "value")
+            return shape(main, param)
         if H.kind(n) == "Binary":
             def role(x):
                 x = H.strip(x)
@@ -322,7 +336,7 @@ def run(ctx):
             ok = s1 == ("call", "to_kelvin", ("value",)) and s2 == ("call", "from_kelvin", ("value",))
         else:
             ok = None
-        if ok is False and (s1 is None or s2 is None or "?" in str(s1) + str(s2) or "call" in (s1[0], s2[0])):
+        if ok is False and "const" not in (s1 or ("",))[0:1] + (s2 or ("",))[0:1] and (s1 is None or s2 is None or "?" in str(s1) + str(s2) or "call" in (s1[0], s2[0])):
             ok = None   # a spelling the shape reader does not follow (a helper, a block): no verdict; a decided pair of operators that is not inverse stays a finding
         ctx.inst("C17.R7", "variant=%s" % v, ok, "to_base: %s ; from_base: %s" % (s1, s2), H.loc(ta[v]["body"]))
 
